@@ -519,7 +519,8 @@ func (p *Program) assumeAvoid(g *IG, assume map[*types.Var]bool) map[edge]bool {
 // in the same chain run on the same goroutine, and the marker is cleared only inside the restart step — so a defensive
 // `marker == nil` test in a later step cannot be taken while the flag is true. The correlation is validated, not assumed:
 // every store of the flag is that comparison (or a constant false), and every nil store of the marker in the module lies in
-// the restart step's own (spliced) graph; inside g the test must not be reachable from such a store.
+// the restart step's own (spliced) graph or in a handler no chain step calls; inside g the test must not be reachable from
+// such a store.
 func (p *Program) assumeRestarting(lc *lifecycle, g *IG) map[edge]bool {
 	out := p.assumeAvoid(g, map[*types.Var]bool{lc.Continue: true, lc.Restarting: true})
 	if lc.RestartingF == nil || lc.Restarting == nil || lc.HandleRestart == nil || !p.flagMirrorsMarker(lc) {
@@ -588,7 +589,20 @@ func (p *Program) flagMirrorsMarker(lc *lifecycle) bool {
 			nFlag++
 		case lc.RestartingF:
 			if isNilConst(st.Val) && !a.Fresh && !rg.owns(p, a.Fn) {
-				good = false
+				// … or in a handler that no step of the chain calls (it cannot run between the step that computes the flag and
+				// the restart step: the chain runs synchronously on the actor's goroutine)
+				fnA := a.Fn
+				called := false
+				for _, stp := range lc.Chain.Steps {
+					for _, sf := range stp.Funcs {
+						if sf == fnA || p.mayDo(sf, func(in ssa.Instruction) bool { c := callOf(in); return c != nil && c.StaticCallee() == fnA }, 3, map[*ssa.Function]bool{}) {
+							called = true
+						}
+					}
+				}
+				if called {
+					good = false
+				}
 			}
 		}
 	}
